@@ -753,7 +753,9 @@ def _vobs(v):
         o["unk"] = unk
     if dtype is not None and not isinstance(v, Table):
         wb = None
-        target = v.copy() if isinstance(v, Row) else v
+        # on the vector itself; on a copy for a row view, and for a vector already seen to be untruthful (the
+        # write-back would repair its dtype and hide the defect from the following operations)
+        target = v.copy() if (isinstance(v, Row) or untruth(v) is not None) else v
         for j in range(len(vals)):
             x = vals[j]
             if isinstance(x, Vector):
@@ -900,8 +902,9 @@ def _observe_prog(case):
     for o in case["ops"]:
         st = {}
         try:
-            if "i" in o and not (0 <= o["i"] < len(heap)):
-                raise IndexError("no such heap position")
+            if any(not (0 <= j < len(heap)) for j in _operand_idx(o)):
+                steps.append({"exc": "OtherError", "cls": "IndexError", "msg": "no such heap position", "noheap": True})
+                continue
             src = None
             if o["op"] == "sort":
                 src = tuple(_raw(heap[o["i"]])[0])
@@ -946,6 +949,54 @@ def observe(case):
         return _observe_prog(case)
     except Exception as e:
         return {"broken": f"{type(e).__name__}: {e}"[:200]}
+
+
+def observe_all(cases):
+    """harness.implrun entry point for a whole batch.
+    Some modules' observers (the heap model of C01 / C02 / C15 / C16) walk gc.get_objects() at every step, so
+    the case dicts of a batch and the module objects would be scanned again and again, and core.py runs the streams one
+    after the other with one process per 2000 cases.  Therefore: (a) a large batch of foreign cases is split over
+    child processes (same interpreter, same environment, same entry point); (b) a process keeps its batch as JSON
+    strings (not tracked by the collector), decodes one case at a time, and freezes what exists before the first."""
+    import gc
+    import os
+    import subprocess
+    import sys
+    import concurrent.futures as cf
+    texts = [json.dumps(c) for c in cases]
+    cases.clear()
+    foreign = any(t.startswith('{"foreign"') for t in texts)
+    if foreign and len(texts) > 60 and not os.environ.get("C03_CHILD"):
+        workers = 5 if len(texts) >= 2000 else 8
+        size = max(25, -(-len(texts) // (workers * 3)))
+        chunks = [texts[i:i + size] for i in range(0, len(texts), size)]
+        env = dict(os.environ, C03_CHILD="1")
+
+        def one(chunk):
+            r = subprocess.run([sys.executable, "-m", "harness.implrun", "c03"], input="[" + ",".join(chunk) + "]",
+                               capture_output=True, text=True, env=env)
+            if r.returncode != 0:
+                raise RuntimeError("C03 child observer failed: " + r.stderr[-2000:])
+            return json.loads(r.stdout)
+        with cf.ThreadPoolExecutor(max_workers=workers) as ex:
+            res = list(ex.map(one, chunks))
+        return [o for part in res for o in part]
+    if foreign:
+        install_monitor()
+        for m in OTHERS:
+            try:
+                importlib.import_module("harness.props." + m)
+            except Exception:
+                pass
+        gc.collect()
+        gc.freeze()
+    outs = []
+    for t in texts:
+        c = json.loads(t)
+        o = observe(c)
+        outs.append(json.dumps(o, default=str))
+        del c, o
+    return [json.loads(t) for t in outs]
 
 
 # ------------------------------------------------------------------ Coq emitter
@@ -994,6 +1045,8 @@ def _cvobs(o):
 
 def _oref(other):
     form = other[0]
+    if form == "scalar" and other[1][0] in ("l", "t"):
+        return f"(ASeq {_elts(other[1][1])})"
     if form == "scalar":
         return f"(AScalar {_elt(other[1])})"
     if form == "list":
@@ -1049,8 +1102,12 @@ def _emit_step(o, st, aux):
         bs = clist(cbool(t == ["b", True]) for t in st["vecs"][0]["vals"])
         return [f"SOp (OpCompare {bs}) {obs}"]
     if op == "set":
+        if raised and st.get("cls") == "AliasError":
+            return []          # shared storage (v << [] returns the same tuple): C01 / C15's subject; nothing changed
         ids = c08.Ids()
         val = o["value"]
+        if val[0] == "scalar" and val[1][0] in ("l", "t"):
+            val = ["list" if val[1][0] == "l" else "tuple", val[1][1]]
         if o["key"][0] in ("int", "bool") and val[0] not in ("scalar", "list", "tuple"):
             return None
         return [f"SOp (OpSet {i} {c08.coq_skey(o['key'])} {c08.coq_value(ids, val)}) {obs}"]
@@ -1063,6 +1120,8 @@ def _emit_step(o, st, aux):
         ctor = "OpLshift" if op == "lshift" else "OpRshift"
         return [f"SOp ({ctor} {i} {_oref(other)}) {obs}"]
     if op == "cast":
+        if raised and st.get("noheap"):
+            return [f"SOp (OpCast {i} {_target(o['t'])} []) None"]
         if raised:
             return [f"SCastRaised {i} {_target(o['t'])}"]
         return [f"SOp (OpCast {i} {_target(o['t'])} {_elts(st['vecs'][0]['vals'])}) {obs}"]
